@@ -1,60 +1,27 @@
 package main
 
 import (
-	stdjson "encoding/json"
 	"fmt"
-	"os"
 
-	"github.com/segmentio/encoding/json"
+	"github.com/segmentio/encoding/proto"
 )
 
-type K struct{ A int }
-
-func (k *K) MarshalText() ([]byte, error) { return []byte(fmt.Sprintf("k%d", k.A)), nil }
-
-type VT int
-
-func (v VT) MarshalText() ([]byte, error)  { return []byte("text"), nil }
-func (v *VT) MarshalJSON() ([]byte, error) { return []byte(`"json"`), nil }
-
-type D1 struct{ X int }
-type D2 struct{ X int }
-type Mid struct{ D2 }
-type Amb struct {
-	D1
-	Mid
+type PetOwner struct {
+	Pet *Pet
+	N   int32
+}
+type Pet struct {
+	Owner PetOwner
+	S     string
+	Rest  map[int32]*Pet
 }
 
 func main() {
-	switch os.Args[1] {
-	case "iface":
-		type S struct {
-			I any `json:"i,omitempty"`
-		}
-		var p *int
-		a, _ := json.Marshal(S{I: p})
-		b, _ := stdjson.Marshal(S{I: p})
-		fmt.Printf("omitempty iface nil ptr: pkg=%s std=%s\n", a, b)
-		v := VT(1)
-		a, _ = json.Marshal(&v)
-		b, _ = stdjson.Marshal(&v)
-		fmt.Printf("VT ptr: pkg=%s std=%s\n", a, b)
-		a, _ = json.Marshal(struct{ V VT }{1})
-		b, _ = stdjson.Marshal(struct{ V VT }{1})
-		fmt.Printf("VT field by value: pkg=%s std=%s\n", a, b)
-		a, _ = json.Marshal(&struct{ V VT }{1})
-		b, _ = stdjson.Marshal(&struct{ V VT }{1})
-		fmt.Printf("VT field addressable: pkg=%s std=%s\n", a, b)
-		a, _ = json.Marshal(Amb{D1{1}, Mid{D2{2}}})
-		b, _ = stdjson.Marshal(Amb{D1{1}, Mid{D2{2}}})
-		fmt.Printf("depth: pkg=%s std=%s\n", a, b)
-	case "ptrkey":
-		b, err := stdjson.Marshal(map[*K]int{{1}: 1})
-		fmt.Printf("std: %s %v\n", b, err)
-		a, err := json.Marshal(map[*K]int{{1}: 1})
-		fmt.Printf("pkg: %s %v\n", a, err)
-	case "recarray":
-		type T [1]*T
-		_ = T{}
-	}
+	v := PetOwner{Pet: &Pet{Owner: PetOwner{N: 5}, S: "lo", Rest: map[int32]*Pet{3: {S: "x", Owner: PetOwner{N: 9}}}}, N: 7}
+	b, err := proto.Marshal(v)
+	fmt.Printf("% x %v size=%d\n", b, err, proto.Size(v))
+	var out PetOwner
+	err = proto.Unmarshal(b, &out)
+	fmt.Printf("%v %+v %+v\n", err, out, out.Pet)
+	// first use through Pet
 }
